@@ -102,6 +102,8 @@ type c05Op struct {
 	Pre c05Vec `json:"pre"` // fit: preemptible amounts inside the reservation
 	Aff string `json:"aff"` // match / nominate: "" | "sel" | "name:<r>"
 	Tag string `json:"tag,omitempty"`
+	// restart (C19, zz_verif_c19_test.go): informer delivery order / duplicates
+	Variant int `json:"variant,omitempty"`
 }
 
 var c05Nodes = []string{"n1", "n2"}
@@ -259,6 +261,9 @@ type c05World struct {
 	rh    *reservationEventHandler
 	ph    *podEventHandler
 	lastR map[string]*schedulingv1alpha1.Reservation // last object delivered per uid (the informer's "old" object)
+	// C19 (zz_verif_c19_test.go): the objects the API server holds = what the informers delivered last; they survive a restart
+	apiR map[string]*c05Op
+	apiP map[string]*c05PodObj
 }
 
 var c05Panics int32 // panics swallowed in worker goroutines of the plugin (Parallelizer)
@@ -355,7 +360,10 @@ func c05Matched(cs *framework.CycleState) map[string][]string {
 func c05ApplyOp(w *c05World, o *c05Op) vu.Ev {
 	out := vu.Ev{}
 	ctx := context.TODO()
+	w.c19Track(o)
 	switch o.Op {
+	case "restart": // C19: the scheduler restarts (zz_verif_c19_test.go)
+		return w.c19Restart(o)
 	case "rAdd": // informer add
 		r := c05Reservation(o)
 		w.lastR[o.R] = r
@@ -484,6 +492,8 @@ func c05Event(o *c05Op) vu.Ev {
 	case "nominate":
 		ev["aff"], ev["node"] = o.Aff, o.Node
 		c05PodFields(ev, &o.c05PodObj)
+	case "restart":
+		ev["variant"] = o.Variant
 	}
 	return ev
 }
@@ -491,6 +501,7 @@ func c05Event(o *c05Op) vu.Ev {
 // c05Run executes one script as one trace segment.
 func c05Run(w *c05World, rec *vu.Recorder, script []c05Op) {
 	w.Fresh()
+	w.apiR, w.apiP = map[string]*c05Op{}, map[string]*c05PodObj{}
 	rec.Reset(nil)
 	for i := range script {
 		o := &script[i]
@@ -615,6 +626,18 @@ func (g *c05Gen) spec(o *c05Op) {
 }
 
 func (g *c05Gen) emit(o c05Op) { g.out = append(g.out, o) }
+
+// set by the C19 driver only: histories are cut by restarts (C05's own histories contain none)
+var c05Restarts bool
+
+// C19: the scheduler restarts; the binding cycles in flight die with the process
+func (g *c05Gen) maybeRestart() {
+	if !c05Restarts || len(g.out) == 0 || g.rng.Intn(10) != 0 {
+		return
+	}
+	g.asm, g.pasm = map[string]string{}, map[string]string{}
+	g.emit(c05Op{Op: "restart", Variant: g.rng.Intn(1 << 20)})
+}
 
 func (g *c05Gen) robj(op string, src *c05Op) c05Op {
 	o := *src
@@ -867,6 +890,7 @@ func (g *c05Gen) queryStep() {
 func c05Random(rng *rand.Rand, n int, big, ext bool) []c05Op {
 	g := &c05Gen{rng: rng, big: big, ext: ext, api: map[string]*c05Op{}, asm: map[string]string{}, pods: map[string]*c05PodObj{}, pasm: map[string]string{}, nR: 3, nP: 4}
 	for len(g.out) < n {
+		g.maybeRestart()
 		switch k := g.rng.Intn(10); {
 		case k < 4:
 			g.reservationStep()
@@ -900,6 +924,7 @@ func c05LedgerScenario(rng *rand.Rand, big bool) []c05Op {
 		g.emit(g.robj("rAdd", r))
 	}
 	for len(g.out) < 16 {
+		g.maybeRestart()
 		id := fmt.Sprintf("p%d", 1+g.rng.Intn(g.nP))
 		cur := g.pods[id]
 		u := fmt.Sprintf("r%d", 1+g.rng.Intn(2))
@@ -970,6 +995,7 @@ func c05OnceScenario(rng *rand.Rand) []c05Op {
 	}
 	ask()
 	for len(g.out) < 14 {
+		g.maybeRestart()
 		id := fmt.Sprintf("p%d", 1+g.rng.Intn(g.nP))
 		u := fmt.Sprintf("r%d", 1+g.rng.Intn(nres))
 		cur := g.pods[id]
